@@ -30,13 +30,14 @@ import (
 //	seq      sh -c '<k1> & ... <kn> &' ; <k>       (only at interpreter level: the first command returns at once and leaves
 //	                                                detached children behind in its process group, whose leader is gone)
 type node struct {
-	kind     string
-	kids     []*node
-	ignore   bool
-	redirect bool
-	reset    bool // leaf: restores the default SIGINT action (matters for background children of sh)
-	wait     bool // sh: all children in the background, then the builtin 'wait'
-	detach   bool // sh: all children in the background, the shell exits at once
+	kind       string
+	kids       []*node
+	ignore     bool
+	ignoreTerm bool // leaf: ignores SIGTERM too (only SIGKILL ends it)
+	redirect   bool
+	reset      bool // leaf: restores the default SIGINT action (matters for background children of sh)
+	wait       bool // sh: all children in the background, then the builtin 'wait'
+	detach     bool // sh: all children in the background, the shell exits at once
 }
 
 type leafInfo struct {
@@ -59,6 +60,8 @@ func genNode(t *rapid.T, depth int, inSh bool) *node {
 	switch n.kind {
 	case "leaf":
 		n.ignore = rapid.IntRange(0, 3).Draw(t, "ignoreInt") == 0
+		// (a process that ignores the interrupt often ignores the polite termination signal as well)
+		n.ignoreTerm = n.ignore && rapid.Bool().Draw(t, "ignoreTermToo")
 		n.redirect = rapid.IntRange(0, 9).Draw(t, "redirect") < 4
 		n.reset = !n.ignore && inSh && rapid.Bool().Draw(t, "resetInt")
 	case "sh":
@@ -90,6 +93,9 @@ func (n *node) render(vh, marker, ready string, inSh, bgOfSh, interpBg, piped bo
 		s := fmt.Sprintf("%s hang %s", vh, marker)
 		if n.ignore {
 			s += " --ignore-int"
+		}
+		if n.ignoreTerm {
+			s += " --ignore-term"
 		}
 		if n.reset {
 			s += " --reset-int"
@@ -136,6 +142,9 @@ func (n *node) shape() string {
 		s := "L"
 		if n.ignore {
 			s += "i"
+		}
+		if n.ignoreTerm {
+			s += "t"
 		}
 		if n.reset {
 			s += "d"
@@ -222,6 +231,7 @@ type killResult struct {
 	otherAlive  bool
 	readyBefore int
 	view        jobView
+	canary      time.Duration // worst oversleep of a 5 ms sleep while waiting for the report
 }
 
 // runKillCase runs script as a one-task job next to a bystander job, cancels it and looks at the process table.
@@ -312,7 +322,28 @@ func runKillCase(t fataler, vh, script string, nLeaves int, killTimeout time.Dur
 			t.Fatalf("cancel: %v", err)
 		}
 	}
+	// a canary next to the wait: how late do 5 ms sleeps wake up on this machine right now?
+	canaryStop := make(chan struct{})
+	canaryMax := make(chan time.Duration, 1)
+	go func() {
+		var worst time.Duration
+		for {
+			select {
+			case <-canaryStop:
+				canaryMax <- worst
+				return
+			default:
+			}
+			t0 := time.Now()
+			time.Sleep(5 * time.Millisecond)
+			if over := time.Since(t0) - 5*time.Millisecond; over > worst {
+				worst = over
+			}
+		}
+	}()
 	v, ok := w.waitDone(job.ID, killTimeout+20*time.Second)
+	close(canaryStop)
+	res.canary = <-canaryMax
 	if ok && job2ID != nil {
 		var v2 jobView
 		if v2, ok = w.waitDone(*job2ID, killTimeout+20*time.Second); ok && !v2.Canceled {
@@ -463,7 +494,12 @@ func TestC20(t *testing.T) {
 		if len(res.lingering) > 0 && res.lingerFor > lingerAllowance {
 			rt.Fatalf("tree %s (kill timeout %s, %d of %d leaves up at cancel, forced shutdown=%v): %d processes of the job are still alive %s after it was reported finished", shape, killTimeout, res.readyBefore, len(leaves), viaShutdown, len(res.lingering), res.lingerFor.Round(10*time.Millisecond))
 		}
-		if res.reportAfter > killTimeout+1500*time.Millisecond {
+		// scheduling latency: 600 ms plus ten times what the canary saw, at most the old flat 1.5 s
+		allowance := 600*time.Millisecond + 10*res.canary
+		if allowance > 1500*time.Millisecond {
+			allowance = 1500 * time.Millisecond
+		}
+		if res.reportAfter > killTimeout+allowance {
 			rt.Fatalf("tree %s: the job was reported finished %s after the cancel, kill timeout is %s", shape, res.reportAfter.Round(10*time.Millisecond), killTimeout)
 		}
 		if !res.otherAlive {
